@@ -1201,6 +1201,18 @@ Qed.
 
 Lemma kw_iv_length : length kw_iv = 8%nat. Proof. reflexivity. Qed.
 
+Lemma kw_wrap_length data :
+  (length data mod 8 = 0)%nat -> length (kw_wrap E data) = (8 + length data)%nat.
+Proof.
+  clear DE.
+  intros Hd. unfold kw_wrap.
+  assert (Bd : blocksK 8 (chunks 8 data)) by (apply chunks_fuel_blocksK_of; [lia|assumption]).
+  destruct (kw_passes E 6 kw_iv 1 (chunks 8 data)) as [a rs] eqn:Ew.
+  destruct (kw_passes_inv _ _ _ _ _ _ kw_iv_length Bd Ew) as (B & L & Len).
+  rewrite app_length, L, (concat_blocksK_length 8 rs B), Len.
+  rewrite <- (concat_blocksK_length 8 _ Bd), chunks_concat by lia. reflexivity.
+Qed.
+
 Lemma kw_wrap_unwrap data :
   (length data mod 8 = 0)%nat ->
   length (kw_wrap E data) = (8 + length data)%nat /\ kw_unwrap D (kw_wrap E data) = Some data.
@@ -1924,13 +1936,23 @@ Proof.
   unfold sec_parse. destruct (eqb_list _ _); [reflexivity|]. cbn [negb]. discriminate.
 Qed.
 
+Lemma secs_parse_ok_hmac fuel ek mac nonce ctr data idx stop r :
+  secs_parse fuel ek mac nonce ctr data idx stop = Ok r ->
+  r = [] \/ eqb_list (slice data (idx + 16) (idx + 48)) (hmac256 mac (slice data idx (idx + 16))) = true.
+Proof.
+  destruct fuel as [|f]; [discriminate|]. cbn [secs_parse].
+  destruct (Nat.leb stop idx); [intros H; injection H as <-; now left|].
+  destruct (sec_parse ek mac nonce ctr data idx) as [[[[uid hcnt] ps] sz]|] eqn:E; [|discriminate].
+  intros _. right. eapply sec_parse_ok_hmac. exact E.
+Qed.
+
 Lemma parse21_accept_lemma (E D : list N -> list N -> list N) sig_ok sigsize kek data p :
   parse21 E D sig_ok sigsize kek data = Ok p ->
   sig_ok = true /\
   (exists keys, kw_unwrap (D kek) (firstn (length (slice data 128 208) - 8) (slice data 128 208)) = Some keys /\
                 p_dek p = firstn 32 keys /\ p_mac p = skipn 32 keys) /\
   (let i := (p_signed_len p + p_sig_len p)%nat in
-   eqb_list (slice data (i + 16) (i + 48)) (hmac256 (p_mac p) (slice data i (i + 16))) = true).
+   p_secs p = [] \/ eqb_list (slice data (i + 16) (i + 48)) (hmac256 (p_mac p) (slice data i (i + 16))) = true).
 Proof.
   unfold parse21. destruct kek as [|k0 kt]; [discriminate|].
   change (IHDR_SIZE + 32)%nat with 128%nat. change PRE_SIZE with 208%nat.
@@ -1942,14 +1964,14 @@ Proof.
   destruct sig_ok; [|discriminate]. cbn [negb].
   set (sigidx := if has_sha (ih_flags h) then (208 + cbraw + 32)%nat else (208 + cbraw)%nat).
   destruct (aligned16 (sigidx + sigsize)); [|discriminate]. cbn [negb].
-  destruct (sec_parse _ _ _ _ _ _) as [[[[uid hcnt] ps] sz]|] eqn:Esec; [|discriminate].
+  destruct (secs_parse _ _ _ _ _ _ _ _) as [secs|] eqn:Esec; [|discriminate].
   destruct (has_sha (ih_flags h) && _); [discriminate|].
-  intros Hp. injection Hp as <-. cbn [p_dek p_mac p_signed_len p_sig_len].
+  intros Hp. injection Hp as <-. cbn [p_dek p_mac p_signed_len p_sig_len p_secs].
   split; [reflexivity|]. split.
   - unfold py_unwrap in Eun. destruct (negb (aes_key_ok (k0 :: kt))); [discriminate|].
     destruct (_ || _); [discriminate|]. destruct (kw_unwrap _ _) as [keys|]; [|discriminate].
     injection Eun as <-. exists keys. auto.
-  - cbv zeta. eapply sec_parse_ok_hmac. exact Esec.
+  - cbv zeta. eapply secs_parse_ok_hmac. exact Esec.
 Qed.
 
 (* ------------------------------------------------------------------ the counter of every single block *)
@@ -1971,7 +1993,7 @@ Proof.
     f_equal. lia.
 Qed.
 
-(* ------------------------------------------------------------------ concrete instances (non-vacuity, refutations) *)
+(* ------------------------------------------------------------------ concrete instances (non-vacuity, the old builder) *)
 Definition demo_secs : list section :=
   [mkSec 5 2 [CErase 0 256 0 0; CLoad 4096 0 [97; 98; 99] (zeros 13)];
    mkSec 9 1 [CReset; CJump 32 3 (Some 48)]].
@@ -1986,17 +2008,27 @@ Proof.
   repeat split; try reflexivity; repeat constructor.
 Qed.
 
-(* the AES instance satisfies the conclusion of rom21_build on a two-section file without the SHA bit ... *)
+(* kernel-evaluated instances with the concrete AES: a two-section file, with and without the SHA bit, is accepted by
+   the ROM and parsed back completely by the parser model *)
 Example demo_rom_accepts :
-  exists file r, build21 (demo 8 demo_secs) = Ok file /\ rom21_aes 16 (x_kek (demo 8 demo_secs)) file = Some r /\
-                 r_secs r = spec_of demo_secs /\ r_pv r = (1, 2, 3) /\ r_cv r = (4, 5, 6) /\ r_flags r = 8.
-Proof. eexists. eexists. split; [vm_compute; reflexivity|]. split; [vm_compute; reflexivity|]. vm_compute. repeat split. Qed.
+  forall flags, flags = 8 \/ flags = 32776 ->
+  exists file r p, build21 (demo flags demo_secs) = Ok file /\
+                   rom21_aes 16 (x_kek (demo flags demo_secs)) file = Some r /\
+                   r_secs r = spec_of demo_secs /\ r_pv r = (1, 2, 3) /\ r_cv r = (4, 5, 6) /\ r_flags r = flags /\
+                   spsdk_parse21 true 16 (x_kek (demo flags demo_secs)) file = Ok p /\
+                   length (p_secs p) = 2%nat /\ p_flags p = flags.
+Proof.
+  intros flags [->| ->]; (eexists; eexists; eexists; split; [vm_compute; reflexivity|]; split; [vm_compute; reflexivity|];
+  split; [vm_compute; reflexivity|]; split; [vm_compute; reflexivity|]; split; [vm_compute; reflexivity|];
+  split; [vm_compute; reflexivity|]; split; [vm_compute; reflexivity|]; vm_compute; split; reflexivity).
+Qed.
 
-(* ... and rejects the file the current builder makes for the same input with the SHA bit (C04-F2) *)
-Lemma rom21_build_sha_refuted_lemma :
-  exists x file, wf_sbin x /\ has_sha (x_flags x) = true /\ build21 x = Ok file /\
+(* the builder before the repair of C04-F2 (image_blocks / first_boot_tag_block without the SHA-256 digest): the ROM
+   rejects its SHA-flagged file and accepts the file of the current builder for the same input *)
+Lemma rom21_old_builder_sha_refuted_lemma :
+  exists x file, wf_sbin x /\ has_sha (x_flags x) = true /\ build21_old x = Ok file /\
                  rom21_aes (x_sigsize x) (x_kek x) file = None /\
-                 (exists file' r, build21_fixed x = Ok file' /\ rom21_aes (x_sigsize x) (x_kek x) file' = Some r /\
+                 (exists file' r, build21 x = Ok file' /\ rom21_aes (x_sigsize x) (x_kek x) file' = Some r /\
                                   r_secs r = spec_of (x_secs x)).
 Proof.
   exists (demo 32776 demo_secs). eexists. split; [apply demo_wf|]. split; [reflexivity|].
@@ -2004,11 +2036,183 @@ Proof.
   eexists. eexists. split; [vm_compute; reflexivity|]. split; [vm_compute; reflexivity|]. vm_compute. reflexivity.
 Qed.
 
-(* BootImageV21.parse: one section of two, default flags instead of the file's (C04-F1) *)
-Lemma parse21_refuted_lemma :
-  exists x file p, wf_sbin x /\ build21 x = Ok file /\ spsdk_parse21 true (x_sigsize x) (x_kek x) file = Ok p /\
-                   length (x_secs x) = 2%nat /\ length (p_secs p) = 1%nat /\ x_flags x = 8 /\ p_flags p = 32776.
+Lemma KW_of_DE (E D : list N -> list N -> list N) :
+  (forall k b, length (E k b) = 16%nat) -> (forall k b, length b = 16%nat -> D k (E k b) = b) ->
+  forall k data, True -> (length data mod 8 = 0)%nat ->
+  length (kw_wrap (E k) data) = (8 + length data)%nat /\ kw_unwrap (D k) (kw_wrap (E k) data) = Some data.
+Proof. intros HE HD k data _ Hm. exact (kw_wrap_unwrap (E k) (D k) (HE k) (HD k) data Hm). Qed.
+
+(* ================================================================== statements of the property theorems (Props/C04) *)
+
+Lemma cmd_roundtrip_thm :
+  forall c, wf_cmd c = true ->
+  exists b o, cmd_export c = Ok b /\ cmd_obs c = Ok o /\ (16 <= length b)%nat /\ (length b mod 16 = 0)%nat /\
+              pcmd_size o = length b /\ forall rest, cmd_parse (b ++ rest) = Ok o.
 Proof.
-  exists (demo 8 demo_secs). eexists. eexists. split; [apply demo_wf|]. split; [vm_compute; reflexivity|].
-  split; [vm_compute; reflexivity|]. vm_compute. repeat split.
+  intros c W. destruct (cmd_ok c W) as (b & o & H1 & H2 & H3 & H4 & H5 & H6). exists b, o.
+  split; [assumption|]. split; [assumption|]. split; [assumption|]. split; [assumption|]. split; [assumption|].
+  intros rest. apply H6.
+Qed.
+
+Lemma rom_cmd_decodes_thm :
+  forall c, wf_cmd c = true ->
+  exists b, cmd_export c = Ok b /\ forall rest, rom_cmd (b ++ rest) = Some (sem c, length b).
+Proof.
+  intros c W. destruct (cmd_ok c W) as (b & o & H1 & _ & _ & _ & _ & H6). exists b. split; [assumption|]. intros rest. apply H6.
+Qed.
+
+Lemma cmd_stream_roundtrip_thm :
+  forall cs, forallb wf_cmd cs = true ->
+  exists bs os, cmds_export cs = Ok bs /\ (length bs mod 16 = 0)%nat /\
+                Forall2 (fun c o => cmd_obs c = Ok o) cs os /\
+                cmds_parse (S (length bs)) bs = Ok os /\ rom_cmds (S (length bs)) bs = Some (map sem cs).
+Proof.
+  intros cs W. destruct (cmds_stream cs W) as (bs & os & H1 & H2 & H3 & H4 & H5). exists bs, os.
+  assert (F : (length cs < S (length bs))%nat) by lia.
+  destruct (H5 _ F). repeat split; assumption.
+Qed.
+
+Lemma header_roundtrip_thm :
+  forall h hb rest, ihdr_export h = Ok hb -> bcd3 (ih_pv h) = true -> bcd3 (ih_cv h) = true ->
+  length hb = 96%nat /\ ihdr_parse (hb ++ rest) = Ok h.
+Proof.
+  intros h hb rest He Hp Hc. split; [apply (ihdr_export_inv h hb He) | now apply ihdr_parse_export].
+Qed.
+
+Lemma layouts_agree_thm :
+  rom_cmdhdr_layout = cmdhdr_format /\ rom_imghdr_layout = imghdr_format /\ rom_certhdr_layout = certhdr_format.
+Proof.
+  exact layouts_agree_lemma.
+Qed.
+
+Lemma hmac_groups_cover_thm :
+  forall mac n per body, (0 < n)%nat ->
+  concat (hmac_groups n per body) = body /\ length (hmac_groups n per body) = n /\
+  rom_groups_ok mac n per body (concat (map (hmac256 mac) (hmac_groups n per body))) = true.
+Proof.
+  intros mac n per body Hn. split; [now apply hmac_groups_concat|]. split; [apply hmac_groups_length| now apply rom_groups_ok_built].
+Qed.
+
+Lemma keyblob_unwraps_thm :
+  forall (E D : list N -> list N),
+  (forall b, length (E b) = 16%nat) -> (forall b, length b = 16%nat -> D (E b) = b) ->
+  forall data, (length data mod 8 = 0)%nat ->
+  length (kw_wrap E data) = (8 + length data)%nat /\ kw_unwrap D (kw_wrap E data) = Some data.
+Proof.
+  exact kw_wrap_unwrap.
+Qed.
+
+Lemma rom_section_decodes_thm :
+  forall (ek : list N -> list N), (forall b, length (ek b) = 16%nat) ->
+  forall mac nonce ctr s b,
+  forallb wf_cmd (s_cmds s) = true -> sec_export ek mac nonce ctr s = Ok b ->
+  (48 <= length b)%nat /\ (length b mod 16 = 0)%nat /\
+  forall pre post off,
+    length pre = off -> (off mod 16 = 0)%nat -> ctr = ctr_of_nonce nonce + N.of_nat (off / 16) ->
+    rom_section ek mac nonce (pre ++ b ++ post) off = Some (s_uid s, map sem (s_cmds s), length b).
+Proof.
+  intros ek Hek mac nonce ctr s b W H. destruct (sec_export_rom ek Hek mac nonce ctr s b W H) as (H1 & H2 & _ & _ & H5). auto.
+Qed.
+
+Lemma rom21_build_thm :
+  forall (E D : list N -> list N -> list N),
+  (forall k b, length (E k b) = 16%nat) -> (forall k b, length b = 16%nat -> D k (E k b) = b) ->
+  forall x file, wf_sbin x -> build21_gen E true x = Ok file ->
+  exists r, rom21 E D (x_sigsize x) (x_kek x) file = Some r /\
+     r_secs r = spec_of (x_secs x) /\ r_flags r = x_flags x /\ r_pv r = x_pv x /\ r_cv r = x_cv x /\
+     r_build r = x_build x /\ r_ts r = x_ts x /\ r_major r = 2 /\ r_minor r = 1 /\
+     r_sig r = x_sig x /\ r_signed_len r = signed_len_of x.
+Proof.
+  intros E D HE HD x file W H.
+  apply (rom21_build_lemma E D HE (fun _ _ => True) (KW_of_DE E D HE HD) true x file W I (or_introl eq_refl) H).
+Qed.
+
+Lemma rom21_old_builder_sha_refuted_thm :
+  exists x file, wf_sbin x /\ has_sha (x_flags x) = true /\ build21_old x = Ok file /\
+                 rom21_aes (x_sigsize x) (x_kek x) file = None /\
+                 (exists file' r, build21 x = Ok file' /\ rom21_aes (x_sigsize x) (x_kek x) file' = Some r /\
+                                  r_secs r = spec_of (x_secs x)).
+Proof.
+  exact rom21_old_builder_sha_refuted_lemma.
+Qed.
+
+Lemma sections_all_thm :
+  forall (E D : list N -> list N -> list N),
+  (forall k b, length (E k b) = 16%nat) -> (forall k b, length b = 16%nat -> D k (E k b) = b) ->
+  forall x file, wf_sbin x -> build21_gen E true x = Ok file ->
+  exists r, rom21 E D (x_sigsize x) (x_kek x) file = Some r /\
+            length (r_secs r) = length (x_secs x) /\ map fst (r_secs r) = map s_uid (x_secs x).
+Proof.
+  intros E D HE HD x file W H.
+  destruct (rom21_build_lemma E D HE (fun _ _ => True) (KW_of_DE E D HE HD) true x file W I (or_introl eq_refl) H) as (r & Hr & Hs & _).
+  exists r. split; [exact Hr|]. rewrite Hs. unfold spec_of. rewrite map_length, map_map. split; reflexivity.
+Qed.
+
+Lemma counter_agreement_thm :
+  forall (E D : list N -> list N -> list N),
+  (forall k b, length (E k b) = 16%nat) -> (forall k b, length b = 16%nat -> D k (E k b) = b) ->
+  forall x file, wf_sbin x -> build21_gen E true x = Ok file ->
+  exists pre bs, file = pre ++ bs /\ (length pre mod 16 = 0)%nat /\
+    secs_export (E (x_dek x)) (x_mac x) (x_nonce x) (ctr_of_nonce (x_nonce x) + N.of_nat (length pre / 16)) (x_secs x) = Ok bs /\
+    rom_sections (E (x_dek x)) (S (length file)) (x_mac x) (x_nonce x) file (length pre) (length file) = Some (spec_of (x_secs x)).
+Proof.
+  intros E D HE HD x file W H.
+  exact (counter_agreement_lemma E D HE (fun _ _ => True) (KW_of_DE E D HE HD) true x file W I H).
+Qed.
+
+Lemma coverage21_thm :
+  forall (E D : list N -> list N -> list N),
+  (forall k b, length (E k b) = 16%nat) -> (forall k b, length b = 16%nat -> D k (E k b) = b) ->
+  forall x file, wf_sbin x -> build21_gen E true x = Ok file ->
+  exists hb hm kb cbb bs k,
+    let signed := hb ++ hm ++ kb ++ cbb ++ (if has_sha (x_flags x) then sha256 bs else []) in
+    file = signed ++ x_sig x ++ bs /\
+    length hb = 96%nat /\ length hm = 32%nat /\ length kb = 80%nat /\ length cbb = cb_raw_size (x_cb x) /\
+    length signed = signed_len_of x /\ length (x_sig x) = x_sigsize x /\
+    kw_unwrap (D (x_kek x)) (firstn 72 kb) = Some (x_dek x ++ x_mac x) /\
+    hm = hmac256 (x_mac x) (slice bs 16 (48 + 32 * k)) /\
+    covered (x_mac x) bs (length (x_secs x)).
+Proof.
+  intros E D HE HD x file W H.
+  exact (coverage21_lemma E D HE (fun _ _ => True) (KW_of_DE E D HE HD) true x file W I H).
+Qed.
+
+Lemma spsdk_parse21_build_thm :
+  forall (E D : list N -> list N -> list N),
+  (forall k b, length (E k b) = 16%nat) -> (forall k b, length b = 16%nat -> D k (E k b) = b) ->
+  forall x file, wf_sbin x -> bcd3 (x_pv x) = true -> bcd3 (x_cv x) = true -> aes_key_ok (x_kek x) = true ->
+  build21_gen E true x = Ok file ->
+  exists oss, Forall2 sec_obs_rel (x_secs x) oss /\
+    parse21 E D true (x_sigsize x) (x_kek x) file =
+    Ok (mkParsed (x_flags x) (x_pv x) (x_cv x) (x_build x) (x_ts x / 1000000 * 1000000) (x_nonce x) (x_dek x) (x_mac x)
+                 oss (signed_len_of x) (x_sigsize x)).
+Proof.
+  intros E D HE HD x file W Hp Hc Hk H.
+  exact (spsdk_parse21_build_lemma E D HE (fun _ _ => True) (KW_of_DE E D HE HD) x file W I Hp Hc Hk H).
+Qed.
+
+Lemma parse21_accepts_only_verified_thm :
+  forall (E D : list N -> list N -> list N) sig_ok sigsize kek data p,
+  parse21 E D sig_ok sigsize kek data = Ok p ->
+  sig_ok = true /\
+  (exists keys, kw_unwrap (D kek) (firstn (length (slice data 128 208) - 8) (slice data 128 208)) = Some keys /\
+                p_dek p = firstn 32 keys /\ p_mac p = skipn 32 keys) /\
+  (let i := (p_signed_len p + p_sig_len p)%nat in
+   p_secs p = [] \/ eqb_list (slice data (i + 16) (i + 48)) (hmac256 (p_mac p) (slice data i (i + 16))) = true).
+Proof.
+  exact parse21_accept_lemma.
+Qed.
+
+Lemma counter_per_block_thm :
+  forall (ek : list N -> list N), (forall b, length (ek b) = 16%nat) ->
+  forall mac nonce ctr s b,
+  forallb wf_cmd (s_cmds s) = true -> sec_export ek mac nonce ctr s = Ok b ->
+  exists hplain cd gs,
+    cmds_export (s_cmds s) = Ok cd /\ length hplain = 16%nat /\
+    b = xblock ek nonce ctr hplain ++ hmac256 mac (xblock ek nonce ctr hplain) ++ concat (map (hmac256 mac) gs) ++ concat gs /\
+    length (concat gs) = length cd /\
+    forall j, (j < length cd / 16)%nat ->
+      nth j (chunks 16 (concat gs)) [] = xblock ek nonce (ctr + N.of_nat (3 + 2 * length gs + j)) (nth j (chunks 16 cd) []).
+Proof.
+  exact counter_per_block_lemma.
 Qed.
